@@ -292,10 +292,46 @@ def field_name(node):
     return None
 
 
+def field_provenance(tr, adt, name, depth=0, seen=None):
+    """names of the fields (of any workspace struct) whose value a struct field is initialised from, following
+    constructor aggregates and constructor parameters back to their call sites: a private field that merely
+    stores a public configuration option carries that option's name, whatever the private field is called"""
+    facts = tr.facts
+    cache = getattr(facts, "_prov_cache", None)
+    if cache is None:
+        cache = facts._prov_cache = {}
+    key = (adt, name)
+    if key in cache:
+        return cache[key]
+    if seen is None:
+        seen = set()
+    out = {name}
+    if depth > 3 or key in seen or not adt or facts.adt(adt) is None:
+        return out
+    seen.add(key)
+    cache[key] = out
+    for (ab, i, j, rv) in agg_sites(facts, adt):
+        if name not in rv["fields"]:
+            continue
+        v = tr.expand(tr.operand(ab, rv["ops"][rv["fields"].index(name)], (i, j)), upvars=True, params=True)
+        for x in tr.walk(v, limit=80):
+            if x[0] == "field" and x[3] and (x[3], x[2]) != key:
+                out |= field_provenance(tr, x[3], x[2], depth + 1, seen)
+            elif x[0] == "field":
+                out.add(x[2])
+    cache[key] = out
+    return out
+
+
 def mentions_field(tr, node, name, limit=200):
+    """the expression DAG of `node` reads a field called `name`, or a field whose provenance (see
+    field_provenance) is a field called `name`"""
     for x in tr.walk(node, limit=limit):
-        if x[0] == "field" and x[2] == name:
-            return True
+        if x[0] == "field":
+            if x[2] == name:
+                return True
+            if x[3] and isinstance(x[2], str) and name in field_provenance(tr, x[3], x[2]):
+                return True
     return False
 
 
